@@ -1,0 +1,6 @@
+//go:build !verif
+// +build !verif
+
+package mutex
+
+func verifPoint(site string, name string, write bool) {}
